@@ -422,9 +422,15 @@ class RemoteWorker(Worker, metaclass=RemoteWorkerMeta):
         except ConnectionClosedError:
             self._result = (False, None)
             logger.debug('Connection to the child has been closed before receiving the result')
+        except Exception:
+            self._result = (False, None)
+            logger.exception('The result received from the child could not be rebuilt')
         else:
-            self._user_state = recv_msg(self._socket, comment='data: user state')
-            logger.debug('User state received')
+            try:
+                self._user_state = recv_msg(self._socket, comment='data: user state')
+                logger.debug('User state received')
+            except Exception:
+                logger.debug('User state could not be received')
         logger.details('Result: {}', self._result)
 
     # Handles serialization between:
